@@ -379,10 +379,10 @@ pub fn normalise(b: &Built, res: &RunResult) -> (Vec<String>, Vec<String>) {
         Outcome::Done => {}
         Outcome::Unstuck(_) | Outcome::Deadlock => {
             let who: Vec<i64> = res.stuck.iter().map(|s| s.0 as i64 + 1).collect();
-            tail.push(Obj::new("deadlock").int("t", 0).int("d", 0).ints("stuck", &who).done())
+            tail.push(Obj::new("deadlock").int("t", 0).int("d", 0).ints("stuck", &who).int("hdepth", res.stuck.iter().map(|s| s.1 as i64).max().unwrap_or(0)).done())
         }
         Outcome::Livelock | Outcome::StepLimit => {
-            tail.push(Obj::new("livelock").int("t", 0).int("d", 0).done())
+            tail.push(Obj::new("livelock").int("t", 0).int("d", 0).int("hdepth", res.stuck.iter().map(|s| s.1 as i64).max().unwrap_or(0)).done())
         }
         Outcome::Aborted(r) => {
             tail.push(Obj::new("aborted").int("t", 0).int("d", 0).str("why", r).done())
